@@ -86,6 +86,13 @@ type FaultPlan struct {
 	// Err, when non-nil, is the error value the fault answers with instead of Kind.Err() (nil = today's behaviour):
 	// a storage may fail with any Go error - every *oidc.Error type, wrapped ones, op.StatusError, own error types.
 	Err error
+	// From, when > 0, fails every call from the From-th on (1-based, counted since Arm; 0 = today's behaviour): a
+	// context-aware backend whose context has ended gives up on every call it is handed from then on.
+	From int
+	// OnCall, when non-nil, is told the number (1-based, counted since Arm) and the method of every storage call at
+	// its entrance, before the plan decides about a fault (nil = today's behaviour). It runs under the store's lock:
+	// it must not call the store. E.g. ending the context of the running request exactly at a chosen storage call.
+	OnCall func(n int, method string)
 }
 
 type User struct {
@@ -303,6 +310,9 @@ type Store struct {
 	// TEGrantNil makes ValidateTokenExchangeRequest grant NO scope by calling SetCurrentScopes(nil) (a storage that
 	// builds the granted list with `var granted []string` + append and grants nothing).
 	TEGrantNil bool
+	// TENoDefaultType: ValidateTokenExchangeRequest leaves an absent requested_token_type as it is (a storage that
+	// decides subject and scopes only and leaves the choice of the token type to the provider); zero: access_token is set.
+	TENoDefaultType bool
 	// StrictJWTProfileScopes makes ValidateJWTProfileScopes refuse (invalid_scope) a request naming a scope outside
 	// KnownScopes instead of silently dropping it; off by default.
 	StrictJWTProfileScopes bool
@@ -438,7 +448,10 @@ func (s *Store) enter(method, a, b, c string, obj any) (int, error) {
 	s.calls++
 	var ferr error
 	if p := s.plan; p != nil {
-		if (p.At > 0 && s.calls == p.At) || (p.Method != "" && p.Method == method) {
+		if p.OnCall != nil {
+			p.OnCall(s.calls, method)
+		}
+		if (p.At > 0 && s.calls == p.At) || (p.Method != "" && p.Method == method) || (p.From > 0 && s.calls >= p.From) {
 			ferr = p.Kind.Err()
 			if p.Err != nil {
 				ferr = p.Err
@@ -677,9 +690,9 @@ const SessionStateFromState = "@from-state"
 
 func (s *Store) snap(r *AuthReq) op.AuthRequest {
 	c := *r
-	c.Scopes = slices.Clone(r.Scopes)
-	c.AMR = slices.Clone(r.AMR)
-	c.Audience = slices.Clone(r.Audience)
+	c.Scopes = s.lend(r.Scopes) // lend = slices.Clone unless SetLendSlices (lend.go)
+	c.AMR = s.lend(r.AMR)
+	c.Audience = s.lend(r.Audience)
 	if r.Challenge != nil {
 		ch := *r.Challenge
 		c.Challenge = &ch
@@ -747,9 +760,14 @@ func (s *Store) DeleteAuthRequest(ctx context.Context, id string) error {
 	defer sched.Storage("DeleteAuthRequest")()
 	s.mu.Lock()
 	defer s.mu.Unlock()
-	_, ferr := s.enter("DeleteAuthRequest", id, "", "", nil)
+	idx, ferr := s.enter("DeleteAuthRequest", id, "", "", nil)
 	if ferr != nil {
 		return ferr
+	}
+	if s.authReqs[id] == nil && s.strictDelete() { // strict.go; off by default
+		err := notFound{"auth request"}
+		s.leave(idx, "", err)
+		return err
 	}
 	delete(s.authReqs, id)
 	for c, rid := range s.codes {
@@ -852,7 +870,7 @@ func (s *Store) CreateAccessAndRefreshTokens(ctx context.Context, req op.TokenRe
 	}
 	if current != "" {
 		old := s.refresh[current]
-		if !s.refreshLive(old) {
+		if !s.rotatable(old) { // = refreshLive(old) unless SetLaxRefresh (laxrefresh.go)
 			err := errors.New("vstore: current refresh token unknown or dead")
 			s.leave(idx, "", err)
 			return "", "", time.Time{}, err
@@ -882,13 +900,14 @@ func (s *Store) TokenRequestByRefreshToken(ctx context.Context, refreshToken str
 	defer s.mu.Unlock()
 	idx, ferr := s.enter("TokenRequestByRefreshToken", refreshToken, "", "", nil)
 	if ferr != nil {
-		return nil, ferr
+		s.leave(idx, s.laxNote(refreshToken), nil)
+		return s.laxGrant(refreshToken), ferr // nil unless SetLaxRefresh (laxrefresh.go)
 	}
 	r := s.refresh[refreshToken]
 	if !s.refreshLive(r) {
 		err := notFound{"refresh token"}
-		s.leave(idx, "", err)
-		return nil, err
+		s.leave(idx, s.laxNote(refreshToken), err)
+		return s.laxGrant(refreshToken), err // nil unless SetLaxRefresh
 	}
 	c := *r
 	c.Scopes = slices.Clone(r.Scopes)
@@ -1356,7 +1375,7 @@ func (s *Store) validateTokenExchangeRequest(ctx context.Context, req op.TokenEx
 			return fail(err)
 		}
 	}
-	if req.GetRequestedTokenType() == "" {
+	if req.GetRequestedTokenType() == "" && !s.TENoDefaultType {
 		req.SetRequestedTokenType(oidc.AccessTokenType)
 	}
 	var allowed []string
@@ -1509,9 +1528,9 @@ func (s *Store) getDeviceAuthorizatonState(ctx context.Context, clientID, device
 		return d.snap, nil
 	}
 	st := &op.DeviceAuthorizationState{
-		ClientID: d.ClientID, Scopes: slices.Clone(d.Scopes), Expires: d.Expires, Done: d.Done, Denied: d.Denied,
-		Subject: d.Subject, AMR: slices.Clone(d.AMR), AuthTime: d.AuthTime,
-		Audience: slices.Clone(d.Audience), // nil unless a check registered one (EditDevice)
+		ClientID: d.ClientID, Scopes: s.lend(d.Scopes), Expires: d.Expires, Done: d.Done, Denied: d.Denied,
+		Subject: d.Subject, AMR: s.lend(d.AMR), AuthTime: d.AuthTime, // lend = slices.Clone unless SetLendSlices (lend.go)
+		Audience: s.lend(d.Audience), // nil unless a check registered one (EditDevice)
 	}
 	d.snap, d.snapVer = st, d.version
 	state := "pending"
